@@ -109,17 +109,7 @@ pub fn run(a: &Args) {
     let mut out = Out::new("From EB Require Import Corr.RunLock.", "lock_case", &["lock_mismatches", "lock_spec_failures"]);
     out.only = a.only;
     let mut id = 0u64;
-    // 1. real OS threads
-    for i in 0..a.count as u64 {
-        let mut rng = Rng::for_case(a.seed, 20, i);
-        let threads = *rng.pick(&[2usize, 2, 3, 4, 8, 16]);
-        let calls = rng.range(1, if threads > 8 { 6 } else { 12 }) as usize;
-        let init = rng.below(1000);
-        let (h, fin) = real_threads(&mut rng, threads, calls, init);
-        out.push(id, lit(&h, fin, threads, calls, init), json!({"kind": "os_threads", "threads": threads, "calls": calls, "first": h.iter().take(6).map(|r| (r.1, r.2, r.3)).collect::<Vec<_>>()}), threads * calls >= 2);
-        out.bump("os_thread_histories"); id += 1;
-    }
-    // 2. the lock source under shuttle: every schedule's history is checked here, a sample goes to Coq as well
+    // 1. the lock source under shuttle: every schedule's history is checked here, a sample goes to Coq as well
     let iters = if a.thorough { 60_000 } else { 2_500 };
     let mut explored = 0usize; let mut bad = 0usize;
     for (name, threads, calls) in [("random", 3usize, 2usize), ("pct", 3, 2), ("random", 4, 2), ("dfs", 2, 2)] {
@@ -159,6 +149,29 @@ pub fn run(a: &Args) {
             id += 1;
         }
         out.bump(&format!("shuttle_{name}_schedules_x{}", hs.len()));
+    }
+    // 2. real OS threads (after the exploration, which reports a deadlock of the lock as a failing case of its own);
+    //    a history that does not complete within the watchdog's limit is a failing case too ("never deadlocks")
+    let limit = std::time::Duration::from_secs(std::env::var("EBH_WATCHDOG_SECS").ok().and_then(|s| s.parse().ok()).unwrap_or(60));
+    for i in 0..a.count as u64 {
+        let mut rng = Rng::for_case(a.seed, 20, i);
+        let threads = *rng.pick(&[2usize, 2, 3, 4, 8, 16]);
+        let calls = rng.range(1, if threads > 8 { 6 } else { 12 }) as usize;
+        let init = rng.below(1000);
+        let (tx, rx) = std::sync::mpsc::channel();
+        std::thread::spawn(move || { let mut rng = rng; let r = real_threads(&mut rng, threads, calls, init); let _ = tx.send(r); });
+        match rx.recv_timeout(limit) {
+            Ok((h, fin)) => {
+                out.push(id, lit(&h, fin, threads, calls, init), json!({"kind": "os_threads", "threads": threads, "calls": calls, "first": h.iter().take(6).map(|r| (r.1, r.2, r.3)).collect::<Vec<_>>()}), threads * calls >= 2);
+                out.bump("os_thread_histories"); id += 1;
+            }
+            Err(_) => {
+                out.push(id, format!("Build_lock_case {} {} {} [] 0 false", init, threads, calls),
+                    json!({"kind": "os_threads_no_progress", "threads": threads, "calls": calls, "what": "the threads did not finish their calls within the time limit (deadlock or lost wake-up)"}), true);
+                out.bump("os_thread_histories_stuck"); id += 1;
+                break;      // the stuck threads stay around; stop here
+            }
+        }
     }
     out.stats.insert("shuttle_schedules_explored".into(), json!(explored));
     out.stats.insert("shuttle_schedules_not_serial".into(), json!(bad));
